@@ -433,6 +433,17 @@ def twin_rate_frames(rng, sd, ac, st, cs):
     return (sd, ac, st1, cs), (sd, ac, st2, cs), "rates_" + fr
 
 
+def twin_int_float(rng, sd, ac, st, cs):
+    """the same state written with integers and with floats (JSON files often carry [100, 0, 10]): velocity vector, rates in stability or
+    wind axes, position and Euler angles"""
+    fr = rng.choice(["body", "stab", "wind"])
+    st1 = {"velocity": [rng.randint(60, 120), rng.randint(-6, 6), rng.randint(2, 12)], "position": [rng.randint(-50, 50), rng.randint(-50, 50), -rng.randint(100, 900)],
+           "orientation": [rng.randint(-40, 40), rng.randint(-20, 20), rng.randint(-170, 170)], "angular_rates": [rng.randint(-1, 1), rng.randint(-1, 1), rng.randint(0, 1)],
+           "angular_rate_frame": fr}
+    st2 = {k: ([float(x) for x in v] if isinstance(v, list) else v) for k, v in st1.items()}
+    return (sd, ac, st1, cs), (sd, ac, st2, cs), "int_float"
+
+
 def twin_qc_points(rng, sd, ac, st, cs):
     """semispan + constant sweep + constant dihedral  vs  the equivalent quarter-chord end point"""
     ac1 = copy.deepcopy(ac)
@@ -488,7 +499,7 @@ def twin_chain(rng, sd, ac, st, cs):
     return (sd, one, st, {}), (sd, two, st, {}), "chain"
 
 
-TWINS = [twin_units, twin_annotations, twin_const_array, twin_uvw, twin_euler_quat, twin_rate_frames, twin_qc_points, twin_chain]
+TWINS = [twin_units, twin_annotations, twin_const_array, twin_uvw, twin_euler_quat, twin_rate_frames, twin_qc_points, twin_chain, twin_int_float]
 
 
 def totals(MX, sd, ac, st, cs):
